@@ -16,6 +16,7 @@ Template directives (each on its own line, introduced by `//@@`):
   //@@ post                                                (following lines: text put after the body, before `}`)
   //@@ attrs                                               (following lines: attributes put before the signature)
   //@@ end
+  //@@ struct file=<path> name=<T> [attrs="#[derive(..)]"]   (copies the struct definition, fields made pub)
   //@@ check-struct file=<path> name=<T> fields="a: A, b: B" [drop="c, d"]
   //@@ check-enum   file=<path> name=<T> variants="A, B, C"
   //@@ include <relative file>
@@ -246,6 +247,20 @@ class Gen:
                             out.append("pub " + item + "   // module-level constant copied from " + kv["file"])
                         k = e
                     k += 1
+                i += 1
+            elif head == "struct":
+                # copy a struct definition verbatim from the snapshot (fields made pub), so that a unit keeps working when a
+                # field is added; types the unit has no stand-in for make the generated file fail to compile (-> UNDECIDED)
+                kv = parse_kv(rest)
+                ssrc, smasked = self.src(kv["file"])
+                body = rsx.find_type_def(ssrc, smasked, "struct", kv["name"])
+                fields = rsx.fields_of(body)
+                out.append("// ---- struct %s copied from %s ----" % (kv["name"], kv["file"]))
+                if kv.get("attrs"):
+                    out.append(kv["attrs"])
+                out.append("pub struct %s { %s }" % (kv["name"], ", ".join("pub " + f for f in fields)))
+                self.items.append({"name": kv["name"], "kind": "struct", "file": kv["file"], "line": 0, "impl": "", "src_name": kv["name"],
+                                   "gen_lo": len(out), "gen_hi": len(out)})
                 i += 1
             elif head == "check-struct" or head == "check-enum":
                 self.check_type(head, parse_kv(rest))
